@@ -201,12 +201,15 @@ func (b *c14b) noise(file, fn string, indent int) {
 }
 
 func (b *c14b) planted(file, fn, dvar string, indent int) {
-	kinds := []string{"oob", "strlimit", "byteslimit", "illTyped", "notCallable"}
+	kinds := []string{"oob", "strlimit", "byteslimit", "illTyped", "notCallable", "oobSel", "strlimitFmt", "strlimitConv", "byteslimitConv"}
 	kind := kinds[b.r.Intn(len(kinds))]
 	b.emit(file, fn, "if mk.boom() == "+itoa(b.nextID+1)+" {", indent)
 	parr := b.v()
 	if kind == "oob" {
 		b.emit(file, fn, parr+" := [1, 2]", indent+1)
+	}
+	if kind == "oobSel" {
+		b.emit(file, fn, parr+" := {a: {b: [1, 2]}}", indent+1)
 	}
 	nextLine := len(*b.files[file]) + 1
 	id := b.marker(file, fn, nextLine, false)
@@ -214,6 +217,14 @@ func (b *c14b) planted(file, fn, dvar string, indent int) {
 	switch kind {
 	case "oob":
 		b.emit(file, fn, parr+"["+call+" + 5] = 1", indent+1)
+	case "oobSel":
+		b.emit(file, fn, parr+".a.b["+call+" + 5] = 1", indent+1)
+	case "strlimitFmt":
+		b.emit(file, fn, b.v()+" := format(\"%s|%s\", \"0123456789abcdef012345678\", string("+call+"))", indent+1)
+	case "strlimitConv":
+		b.emit(file, fn, b.v()+" := string(bytes(\"0123456789abcdef\") + bytes(\"0123456789\" + string("+call+")))", indent+1)
+	case "byteslimitConv":
+		b.emit(file, fn, b.v()+" := bytes(\"0123456789abcdef\" + \"0123456789\" + string("+call+"))", indent+1)
 	case "strlimit":
 		b.emit(file, fn, b.v()+" := \"0123456789abcdef\" + \"0123456789\" + string("+call+")", indent+1)
 	case "byteslimit":
